@@ -9,6 +9,32 @@ _conc = importlib.util.module_from_spec(_spec)
 _spec.loader.exec_module(_conc)
 
 
+def extract(ctx):
+    """regenerate the facts; a fact the extractor could not establish is noted and makes this run look harder"""
+    import re
+    txt = _conc.extract(ctx, "C11", "C11.lean")
+    unknown = re.findall(r"def (\w+)Known : Bool := false\ndef \w+Why : String := \"([^\"]*)\"", txt)
+    if unknown:
+        ctx.notes.append("facts NOT established by the extractor (no obligation depends on them in this run; the stress run is "
+                         "amplified instead): " + "; ".join(f"{n}: {w}" for n, w in unknown))
+        ctx.c11_amplify = True
+    return txt
+
+
+def amplify(ctx):
+    """facts not established: run the thorough-tier stress in the same run"""
+    ctx.log("amplify: facts not established -> thorough-tier stress in this run")
+    cases, gores, model, bad = _conc.stress(ctx, ctx.harness, "thorough", "amplify", SPEC.get("shards", 8), 900)
+    ctx.coverage["amplified_evaluations"] = len(cases)
+    for i in bad[:2]:
+        rp = checklib.write_replay(ctx, "input", {"payload": cases[i], "readable": cases[i]},
+                                   model.get(i, ("MISSING", {}))[0], gores.get(i, "MISSING"),
+                                   f"./check {ctx.prop} --replay <this file>", tag="amplify")
+        checklib.violation(ctx, rp, f"(amplified run) go={gores.get(i, 'MISSING')[:80]!r}")
+    checklib.write_evidence(ctx)
+    return 1 if ctx.violations else 0
+
+
 def decode(p):
     return dict(kv.split("=", 1) for kv in p.split(" ") if "=" in kv)
 
@@ -17,7 +43,7 @@ SPEC = dict(
     lean_modules=["Ecal.Props.C11"],
     shards=12,
     budget_s=900,
-    extract=lambda ctx: _conc.extract(ctx, "C11", "C11.lean"),
+    extract=extract,
     rule=("one case = one stress configuration + seed: a processor with w in {2,3,4,6,8,12,16} workers, 1..3 sinks "
           "(kindmatch t.a / t.* / t.b, priorities 1..3, fail-on-first-error on or off), ev events submitted by h goroutines "
           "(AddEventAndWait, or bursts of AddEvent with one root monitor per event); every event carries its id and per sink an "
@@ -62,6 +88,8 @@ META = dict(
 
 def run(ctx):
     rc = checklib.standard(ctx, SPEC)
+    if getattr(ctx, "c11_amplify", False) and ctx.tier != "thorough":
+        rc = max(rc, amplify(ctx))
     if ctx.tier == "thorough":
         rc = max(rc, _conc.race_run(ctx, SPEC, tier="quick"))
     return rc
